@@ -189,6 +189,25 @@ func c20Retry(c *Ctx, f *ssa.Function, sp sendSpec) {
 		}
 	}
 	c.check(good, rule, w.fname(f)+"/exhaustion-is-error", w.pos(f.Pos()), "running out of attempts is an error", "after the last attempt Send does not return a fresh error")
+	// nothing refuses the send before the attempts: an error return that does not lie behind the loop head carries the
+	// serialisation error, nothing else (a "closed"/"disabled" flag tested up front makes the transport refuse for good,
+	// although a fresh connection could be dialled)
+	okEarly := true
+	whereEarly := ""
+	for _, r := range returnsUnder(f, nil) {
+		if hdr.Dominates(r.Block()) || len(r.Results) == 0 {
+			continue
+		}
+		for _, v := range phiLeaves(r.Results[len(r.Results)-1]) {
+			cc, idx := callOfResult(v)
+			if cc != nil && w.calleeName(cc) == "(*Message).Bytes" && idx == errIndex(cc) {
+				continue
+			}
+			okEarly = false
+			whereEarly = w.ipos(r)
+		}
+	}
+	c.check(okEarly, rule, w.fname(f)+"/no-refusal-before-attempts", w.pos(f.Pos()), "before the attempts only a serialisation failure ends Send", "Send returns at "+whereEarly+" before any attempt, and not because the message could not be serialised: a state flag (closed, disabled, expired) makes the transport refuse although it could redial - every later send fails too")
 	// success leaves at once with nil
 	okS := false
 	keep := w.under(assumeAtom(errNil(wr), true))
